@@ -13,7 +13,7 @@ ASSUMPTIONS = [
     "integer alphabet sizes only (0..25); non-integer spellings are not asserted",
 ]
 OUTSIDE = ["sequence lengths above the bound", "non-integer alphabetSize arguments", "user dictionaries with extra keys other than 'X' and 'B'"]
-NMAX = {"quick": 5, "thorough": 10}
+NMAX = {"quick": 5, "thorough": 12}
 ITEM_TIMEOUT = {"quick": 400, "thorough": 1500}
 BADVALS = ["a", "X", "B", "AA", "", 1]
 EXTRA_KEYS = ["X", "B"]
